@@ -78,7 +78,7 @@ def execute(optimizer, steps):
 
 
 def make_machine(optimizer, tier, ctx):
-    task_st = strategies.task_spec(max_dim=5)
+    task_st = strategies.task_spec(max_dim=5, families=strategies.WILD_FAMILIES)
     long_task_st = strategies.task_spec(max_dim=4, encodings=strategies.CONTINUOUS_ENCODINGS,
                                         families=("sphere", "abssum", "cosprod", "altlinear"))
     short = strategies.config_spec(optimizer, max_cycles=(1, 6 if tier == "quick" else 12), reverse_lists=True)
